@@ -3,4 +3,5 @@ package props
 
 import (
 	_ "verif/props/c01"
+	_ "verif/props/c09"
 )
